@@ -37,6 +37,25 @@ CLAIMED = {
         design_ref="DESIGN.md section 6 C05",
         note=_SYNC_NOTE,
         technique="TLA+ property layer (Notify) + TLC trace validation of real sync executions with a transparent hasher"),
+    "C06": dict(
+        text="The real Send runs over materialised sources against a reference receiver written from the documented protocol, under "
+             "request scripts (any subset/order, eager requests racing the STAT stream, 150-400 request bursts, duplicate / unknown / "
+             "non-file ids, leaving without FIN, hard-link member ids), stream capacities 0..64, delays and a post-enqueue gate; TLC "
+             "validates every packet of the log against the SENDER ROLE automaton of spec/SyncTrace.tla (STAT order and end marker, DATA only "
+             "for requested unfinished ids with the right bytes at the running offset, one terminator at end of file, FIN only as echo, "
+             "success only after the echo, invalid ids fail the call, valid sessions succeed, progress monotone with one final call).",
+        design_ref="DESIGN.md section 6 C06",
+        note=_SYNC_NOTE,
+        technique="TLA+ role automaton (SyncTrace: sender role over a FIFO pipe model) + TLC trace validation of real Send against a reference receiver"),
+    "C07": dict(
+        text="The real Receive runs into materialised prior destinations against a reference sender announcing synthetic views with scripted "
+             "chunking (1 byte .. 1 MiB), id interleaving, DATA racing STATs, late end marker, early end of stream at every position and large "
+             "fan-out; TLC validates the receiver's emissions against the RECEIVER ROLE automaton (REQ only for announced, needed, regular "
+             "non-link ids, once; FIN after end marker and all terminators; success only after FIN and end of stream; failure on early EOF) "
+             "and the stored bytes / final tree against SyncOutcome.",
+        design_ref="DESIGN.md section 6 C07",
+        note=_SYNC_NOTE,
+        technique="TLA+ role automaton (SyncTrace: receiver role) + TLC trace validation of real Receive against a reference sender"),
     "C12": dict(
         text="TLC proves, for every change sequence up to the bound over a hostile path alphabet, that the transcribed Validator "
              "(alg) accepts exactly what the property-layer ValidStream accepts and rejects at the same index, and that the "
